@@ -4658,6 +4658,16 @@ impl Handler {
             }
             _ => (None, None),
         };
+        // Ownership is granted only for a graph this request really creates: a failed
+        // `.kg create g` of an existing graph followed by `.kg use g` in the same program
+        // also ends with switched_kg == g.
+        let kg_create_existed_before = kg_create_name.as_ref().is_some_and(|name| {
+            self.storage
+                .read()
+                .list_knowledge_graphs()
+                .iter()
+                .any(|g| g == name)
+        });
 
         let result = if is_query {
             if let Some(sid) = session_id {
@@ -4679,7 +4689,9 @@ impl Handler {
         if let Some(identity) = effective_auth {
             if identity.role != crate::auth::Role::Admin {
                 if let Some(ref name) = kg_create_name {
-                    if result.switched_kg.as_deref() == Some(name.as_str()) {
+                    if !kg_create_existed_before
+                        && result.switched_kg.as_deref() == Some(name.as_str())
+                    {
                         let _ = self.handle_kg_acl_grant(name, &identity.username, "owner");
                     }
                 }
